@@ -56,13 +56,14 @@ def _validate_start_end_size(size, name: str) -> None:
 
 
 def _validate_c2c_expansion(c2c_expansion) -> None:
-    if c2c_expansion <= 0:
-        raise ValueError(f"Cell-to-cell expansion must be positive, got {c2c_expansion}")
+    # (nan fails every comparison: a test for the valid range rejects it, a test for the invalid one does not)
+    if not 0 < c2c_expansion < np.inf:
+        raise ValueError(f"Cell-to-cell expansion must be positive and finite, got {c2c_expansion}")
 
 
 def _validate_total_expansion(expansion) -> None:
-    if expansion <= 0:
-        raise ValueError(f"Total expansion ratio must be positive, got {expansion}")
+    if not 0 < expansion < np.inf:
+        raise ValueError(f"Total expansion ratio must be positive and finite, got {expansion}")
 
 
 ### functions returning start_size
